@@ -226,6 +226,13 @@ TrFromGreg == IsOp("from_greg") /\ KeepD /\
 (* TLC's integers): a canonical value in that scale or an error - never a panic, never a missed deadline     *)
 TrFromGregFar == IsOp("from_greg_far") /\ KeepD /\ KeepE
             /\ (Has(E.res, "err") \/ (IsEp(E.res) /\ E.res.ts = E.ts /\ M!Canonical(<<E.res.c, Mg(E.res.n)>>)))
+(* the panicking helper constructors (from_gregorian, _at_midnight, _at_noon, _hms and their _utc / _tai forms): *)
+(* fields that must be rejected end in the documented panic, never in an epoch; fields that must be accepted give *)
+(* the exact epoch                                                                                               *)
+TrFromGregPanicky == IsOp("from_greg_panicky") /\ KeepD /\ KeepE /\ (IsEp(E.res) \/ Has(E.res, "panic"))
+            /\ (X!MustReject(E.y, E.m, E.d, E.hh, E.mi, E.ss, E.ns) => Has(E.res, "panic"))
+            /\ ((X!MustAccept(E.y, E.m, E.d, E.hh, E.mi, E.ss, E.ns) /\ E.ss < 60)
+                  => (IsEp(E.res) /\ EV(E.res) = X!Ep(E.ts, X!FromFieldsRaw(E.ts, E.y, E.m, E.d, E.hh, E.mi, E.ss, E.ns))))
 TrIsValid == IsOp("is_valid") /\ KeepD /\ KeepE
             /\ Has(E.res, "v") /\ E.res.v \in BOOLEAN
             /\ (X!MustAccept(E.y, E.m, E.d, E.hh, E.mi, E.ss, E.ns) => E.res.v = TRUE)
@@ -382,7 +389,7 @@ EpochNext1 ==
   \/ TrRefConst \/ TrOffsetConsts \/ TrLeapDump \/ TrLeapNaif \/ TrLeapQuery \/ TrLeapFile \/ TrLeapWith \/ TrLeapAll
   \/ TrELoad \/ TrEAdd \/ TrESub \/ TrEAddU \/ TrESubU \/ TrEAddF \/ TrESubE
   \/ TrToScale \/ TrToDur \/ TrECmp \/ TrERange \/ TrESort \/ TrEFloor \/ TrECeil \/ TrERound
-  \/ TrFromGreg \/ TrFromGregFar \/ TrIsValid \/ TrToGreg \/ TrWeekday \/ TrNext \/ TrPrev
+  \/ TrFromGreg \/ TrFromGregFar \/ TrFromGregPanicky \/ TrIsValid \/ TrToGreg \/ TrWeekday \/ TrNext \/ TrPrev
   \/ TrFromTOW \/ TrToTOW \/ TrFromNs \/ TrToNs
 (* F1 through Epoch::floor / ceil / round (they act on the elapsed time with Duration's methods) *)
 Dev_F1E ==
